@@ -169,6 +169,11 @@ class Models:
         R(r"impl core::ops::index::IndexMut<I> for \[T(; N)?\]>::index_mut$|^<alloc::vec::Vec<T, A> as core::ops::index::IndexMut<I>>::index_mut$", m_index, "IndexMut: as Index, mutable")
         R(r"^<T as core::convert::Into<U>>::into$|^core::convert::Into::into$", m_into, "Into::into = From::from; &[u8]/&Vec<u8> -> Cow::Borrowed, Vec<u8> -> Cow::Owned, T -> T identity")
         R(r"^core::option::Option::<T>::(unwrap|expect)$|^core::result::Result::<T, E>::(unwrap|expect)$", m_unwrap, "unwrap/expect: the contained Some/Ok value (panic otherwise: A4)")
+        R(r"^core::option::Option::<T>::(is_some|is_none)$|^core::result::Result::<T, E>::(is_ok|is_err)$", m_is_variant, "is_some/is_none/is_ok/is_err test the variant")
+        R(r"^core::option::Option::<T>::(unwrap_or|unwrap_or_default)$|^core::result::Result::<T, E>::(unwrap_or|unwrap_or_default)$", m_unwrap_or, "unwrap_or(d)/unwrap_or_default: the contained value, else d / Default::default()")
+        R(r"^core::option::Option::<&T>::(copied|cloned)$|^core::option::Option::<&mut T>::(copied|cloned)$", m_copied, "Option<&T>::copied/cloned: Some(&v) => Some(v)")
+        R(r"^core::slice::<impl \[T\]>::first$", m_first, "slice::first: Some(&s[0]) unless the slice is empty")
+        R(r"^core::slice::<impl \[T\]>::get$", m_slice_get, "slice::get(i): Some(&s[i]) iff i < len")
         R(r"^core::result::Result::<T, E>::ok$", m_result_ok, "Result::ok: Ok(v) => Some(v), Err(_) => None")
         R(r"^core::option::Option::<T>::ok_or_else$", m_ok_or_else, "Option::ok_or_else: Some(v) => Ok(v), None => Err(f())")
         R(r"^alloc::vec::Vec::<T>::new$|^alloc::vec::Vec::<T>::with_capacity$", lambda ci: ("seq", ()), "Vec::new / with_capacity: empty vector")
@@ -416,6 +421,68 @@ def m_unwrap(ci):
         return ("panic!", "unwrap on " + x[3])
     ci.st.emit(("unwrap", x, ci.w))
     return ("unwrap", x)
+
+
+def m_is_variant(ci):
+    which = ci.name.split("::")[-1]
+    x = ci.deref(ci.args[0]) if ci.args[0][0] == "ref" else ci.args[0]
+    want = {"is_some": "Some", "is_none": "None", "is_ok": "Ok", "is_err": "Err"}[which]
+    if x[0] == "adt":
+        return TRUE if x[3] == want else FALSE
+    idx = {"None": 0, "Some": 1, "Ok": 0, "Err": 1}[want]
+    return ("deq", ("discr", x), idx)
+
+
+def default_of(ty):
+    from mireval import int_bits
+    if int_bits(ty)[0] is not None:
+        return mk_int(0, ty)
+    return None
+
+
+def m_unwrap_or(ci):
+    x = ci.args[0]
+    dflt = ci.args[1] if len(ci.args) > 1 else default_of(ci.dest["ty"])
+    if dflt is None:
+        return None
+    if x[0] == "adt":
+        return x[4][0] if x[3] in ("Some", "Ok") else dflt
+    d = ("discr", x)
+    some_idx = 1 if "option" in ci.name else 0
+    return ("fork", [([(d, some_idx)], ("unwrap", x)), ([(d, 1 - some_idx)], dflt)])
+
+
+def m_copied(ci):
+    x = ci.args[0]
+    if x[0] == "adt":
+        if x[3] == "Some":
+            return some(ci.ev, ci.deref(x[4][0]))
+        return x
+    return ("app", "copied", (x,))
+
+
+def m_first(ci):
+    sl = ci.deref(ci.args[0])
+    n = len_term(sl)
+    if n[0] == "int":
+        if n[1] == 0:
+            return none(ci.ev)
+        return some(ci.ev, ("ref", ("val", index_term(sl, mk_int(0, "usize")), ()), False))
+    z = ("app", "Eq", (n, mk_int(0, "usize")))
+    return ("fork", [([(z, 1)], none(ci.ev)), ([(z, 0)], some(ci.ev, ("ref", ("val", index_term(sl, mk_int(0, "usize")), ()), False)))])
+
+
+def m_slice_get(ci):
+    sl = ci.deref(ci.args[0])
+    i = ci.args[1]
+    if i[0] not in ("int", "sym", "proj", "app"):
+        return None
+    n = len_term(sl)
+    c = ("app", "Lt", (i, n))
+    elem = some(ci.ev, ("ref", ("val", index_term(sl, i), ()), False))
+    if i[0] == "int" and n[0] == "int":
+        return elem if i[1] < n[1] else none(ci.ev)
+    return ("fork", [([(c, 1)], elem), ([(c, 0)], none(ci.ev))])
 
 
 def m_result_ok(ci):
